@@ -1070,6 +1070,105 @@ def unit_session(seed, n=400):
     return ops
 
 
+def bytebuf_session(seed, n=60, exhaustive=False):
+    """C12 at the level of the byte array: scripts of bit-buffer calls on one exact-size buffer (writers, then the terminator and
+    bitbuf_read_init over exactly the bytes written, then readers - matching ones, and mismatching ones that run into the end),
+    and bare appBitsCpy calls for (destination bit, source bit, count) triples on arrays of exactly the bytes the ranges occupy.
+    The model (lean/Utcp/ByteBuf.lean) executes the same byte operations; a byte touched outside an array is `memfault` there
+    and an AddressSanitizer report here."""
+    rng = random.Random(seed)
+    ops = ["reset"]
+    edge_mx = [2, 3, 4, 5, 7, 8, 9, 15, 16, 17, 255, 256, 257, 1023, 1024, 1025, 65535, 65536, 65537, (1 << 31) - 1, 1 << 31, (1 << 31) + 1, (1 << 32) - 1]
+    edge_v = [0, 1, 127, 128, 16383, 16384, 2097151, 2097152, 268435455, 268435456, 4294967295]
+    if exhaustive:
+        # every alignment pair, every count that selects a different path or mask (0, the <= 8 path, 9.. with and without lead-out)
+        toks = []
+        for d in range(8):
+            for sb in range(8):
+                for cnt in list(range(0, 42)) + [63, 64, 65, 127, 128, 129]:
+                    toks.append("cp:%d:%d:%d:%d" % (d + 8 * rng.randint(0, 2), sb + 8 * rng.randint(0, 2), cnt, rng.randint(1, 1 << 30)))
+        for i in range(0, len(toks), 48):
+            ops.append("bbs 0 " + " ".join(toks[i:i + 48]))
+    for _ in range(n):
+        r = rng.random()
+        if r < 0.25:
+            toks = ["cp:%d:%d:%d:%d" % (rng.randint(0, 40), rng.randint(0, 40), rng.choice([0, 1, 2, 7, 8, 9, 10, 15, 16, 17, 23, 24, 25, rng.randint(0, 64), rng.randint(0, 12000)]), rng.randint(1, 1 << 30))
+                    for _ in range(rng.randint(1, 24))]
+            ops.append("bbs 0 " + " ".join(toks))
+            continue
+        # a write script and its read-back
+        w = []
+        rd = []
+        bits = rng.randint(0, 7) if rng.random() < 0.7 else 0
+        for _ in range(bits):
+            w.append("wb:%d" % rng.choice([0, 1, 1, 2, 255, 256]))
+            rd.append("rb")
+        for _ in range(rng.randint(1, 14)):
+            k = rng.random()
+            if k < 0.15:
+                w.append("wb:%d" % rng.choice([0, 1]))
+                rd.append("rb")
+            elif k < 0.35:
+                nb = rng.choice([0, 1, 2, 7, 8, 9, 15, 16, 17, 31, 32, 33, rng.randint(0, 80), rng.randint(0, 3000)])
+                w.append("ws:%d:%d" % (nb, rng.randint(1, 1 << 30)))
+                rd.append("rs:%d" % nb)
+            elif k < 0.45:
+                nb = rng.choice([0, 1, 2, 3, rng.randint(0, 40)])
+                w.append("wy:%d:%d" % (nb, rng.randint(1, 1 << 30)))
+                rd.append("ry:%d" % nb)
+            elif k < 0.62:
+                mx = rng.choice(edge_mx + [rng.randint(2, (1 << 32) - 1), rng.randint(2, 70000)])
+                v = rng.choice([0, 1, mx - 1, mx // 2, rng.randint(0, mx - 1)])
+                if rng.random() < 0.08:
+                    v = min(mx + rng.randint(0, 3), (1 << 32) - 1)      # refused (or, when clipped to max-1.., accepted) by the writer
+                w.append("wi:%d:%d" % (v, mx))
+                if v < mx:
+                    rd.append("ri:%d" % mx)
+            elif k < 0.72:
+                mx = rng.choice(edge_mx + [1 << rng.randint(1, 31)])
+                w.append("ww:%d:%d" % (rng.randint(0, (1 << 32) - 1), mx))
+                rd.append("ri:%d" % mx)
+            elif k < 0.9:
+                w.append("wp:%d" % rng.choice(edge_v + [rng.randint(0, 4294967295), rng.randint(0, 70000)]))
+                rd.append("rp")
+            else:
+                w.append("wu:%d" % rng.randint(0, 4294967295))
+                rd.append("ru")
+        # capacity: roomy, exactly full, one bit short, a few bytes short (writes start to fail; a failed write leaves everything untouched)
+        need = 0
+        for t in w:
+            f = t.split(":")
+            if f[0] == "wb":
+                need += 1
+            elif f[0] == "ws":
+                need += int(f[1])
+            elif f[0] == "wy":
+                need += 8 * int(f[1])
+            elif f[0] in ("wi", "ww"):
+                need += max(1, (int(f[2]) - 1).bit_length())
+            elif f[0] == "wp":
+                need += 8 * max(1, (int(f[1]).bit_length() + 6) // 7)
+            else:
+                need += 32
+        mode = rng.random()
+        if mode < 0.4:
+            cap = (need + 1 + 7) // 8 + rng.randint(0, 3)
+        elif mode < 0.6:
+            cap = (need + 1 + 7) // 8
+        elif mode < 0.75:
+            cap = need // 8          # the terminator (or the last write) does not fit
+        else:
+            cap = max(0, (need + 7) // 8 - rng.randint(1, 6))
+        # readers: the matching sequence, or a perturbed one (other widths, reads past the end)
+        if rng.random() < 0.35:
+            for _ in range(rng.randint(1, 4)):
+                alt = rng.choice(["rb", "rs:%d" % rng.choice([1, 2, 8, 9, 17, 33, rng.randint(0, 200)]), "ry:%d" % rng.randint(0, 9), "ri:%d" % rng.choice(edge_mx), "rp", "ru"])
+                rd.insert(rng.randint(0, len(rd)), alt)
+        rd += [rng.choice(["rb", "rp", "ru", "rs:9", "ri:1024", "ry:1"]) for _ in range(rng.randint(0, 3))]
+        ops.append("bbs %d %s end %s" % (min(cap, 4000), " ".join(w), " ".join(rd)))
+    return ops
+
+
 def hs_stray_session(seed):
     """C05: the challenge ack is lost; before the client's retry, earlier (duplicated / held-back) client handshake datagrams reach the
     server-side connection through the routing policy; the handshake must still complete once and both ends must agree"""
